@@ -2,6 +2,7 @@ package router
 
 import (
 	"context"
+	"hash/maphash"
 	"net/netip"
 	"time"
 
@@ -126,4 +127,58 @@ func VerifH_C19_RefreshReplaces() {
 	} else {
 		verifrt.Assert(!m.Header.AuthenticData && len(m.Answers) == len(old.Answers), "an error response leaves the positive entry in place")
 	}
+}
+
+// VerifH_C19_ManyKeysNoDelay: N different cached questions are all hit inside their refresh window while the
+// upstream is not answering at all, so N background refreshes pile up. No hit ever waits for anything a refresh holds:
+// the harness serves the N hits on one goroutine, so a hit that blocked would leave it parked for ever (reported as a
+// deadlock). The clock is fixed by the harness (stored at t0, hit at t0 + 90 % of a 100 s lifetime), so every hit is
+// in the window by construction.
+func VerifH_C19_ManyKeysNoDelay() {
+	verifrt.Unwind(2000)
+	verifrt.SchedBound(0)
+	verifrt.CtxNoExpiry = true
+	n := 40
+	if verifrt.Thorough() {
+		n = 200
+	}
+	base := time.Unix(1700000000, 0)
+	offset := time.Duration(0)
+	verifrt.Redirect("time.Now", func() time.Time { return base.Add(offset) })
+	verifrt.Redirect("time.Until", func(t time.Time) time.Duration { return t.Sub(base.Add(offset)) })
+	verifrt.Redirect("time.Since", func(t time.Time) time.Duration { return base.Add(offset).Sub(t) })
+	// a concrete, collision-free stand-in for the (uninterpreted) hash of the single-flight key: the names differ in
+	// their two content octets
+	verifrt.Redirect("hash/maphash.Bytes", func(_ maphash.Seed, b []byte) uint64 { return uint64(b[1])<<8 | uint64(b[2]) })
+	up := &vGatedUpstream{gate: make(chan struct{})}
+	r := vRouter([]*rule{{upstream: &upstreamWrapper{tag: "up", u: up}}}, true)
+	mkQ := func(i int) *dnsmsg.Question {
+		q := dnsmsg.NewQuestion()
+		q.Name = dnsmsg.Name([]byte{2, byte('a' + i%26), byte('a' + i/26)})
+		q.Type, q.Class = 1, 1
+		return q
+	}
+	for i := 0; i < n; i++ {
+		q := mkQ(i)
+		resp := dnsmsg.NewMsg()
+		resp.Header.Response = true
+		resp.Questions = append(resp.Questions, q.Copy())
+		a := dnsmsg.NewA()
+		a.Name, a.Type, a.Class, a.TTL = dnsmsg.Name([]byte{2, q.Name[1], q.Name[2]}), dnsmsg.TypeA, 1, 100
+		resp.Answers = append(resp.Answers, a)
+		r.cache.Store(q, netip.Addr{}, resp)
+	}
+	offset = 90 * time.Second
+	for i := 0; i < n; i++ {
+		rc := getRequestContext()
+		r.handleReq(context.Background(), mkQ(i), rc)
+		verifrt.Assert(rc.Response.Cached && rc.Response.Msg != nil, "answered from the cache at once")
+	}
+	verifrt.Reach("all-hits-served")
+	verifrt.Assert(up.calls == 0, "no hit waited for the upstream")
+	verifrt.Quiesce()
+	verifrt.Assert(len(r.prefetch.queue) == n, "one refresh per question is in flight")
+	close(up.gate)
+	verifrt.Quiesce()
+	verifrt.Assert(len(r.prefetch.queue) == 0 && up.calls == n, "every refresh ran once and cleared its mark")
 }
